@@ -721,7 +721,23 @@ namespace awkward {
 
       ContentPtr next = content_.get()->carry(nextcarry, true);
 
-      ContentPtr out = next.get()->getitem_next(head, tail, advanced);
+      // the rows that are missing are gone from 'next': 'advanced' (one entry
+      // per row) has to lose the same entries
+      ContentPtr out(nullptr);
+      if (advanced.is_empty_advanced()) {
+        out = next.get()->getitem_next(head, tail, advanced);
+      }
+      else {
+        Index64 nextadvanced(nextcarry.length());
+        int64_t k = 0;
+        for (int64_t i = 0;  i < outindex.length()  &&  i < advanced.length();  i++) {
+          if (outindex.getitem_at_nowrap(i) >= 0) {
+            nextadvanced.setitem_at_nowrap(k, advanced.getitem_at_nowrap(i));
+            k++;
+          }
+        }
+        out = next.get()->getitem_next(head, tail, nextadvanced);
+      }
       IndexedOptionArray64 out2(identities_, parameters_, outindex, out);
       return out2.simplify_optiontype();
     }
